@@ -48,7 +48,9 @@ TRUSTED_BASE = [
     "float64 results are compared only when no threshold is within 1e-11 (else float_ambiguous)",
     "harness/props/C12.py (adapters, error mapping id -> index, exact Fraction conversion), "
     "lean/Driver/{Wire,GeomMain}.lean parser",
-    "channel facts is_virtual() and basis are read from the real channel objects and passed to the model",
+    "channel facts (virtual? XY basis?) are derived from the constructor arguments of each channel kind by the "
+    "harness; trap coordinates / ids / dimensionalities given to the model are recomputed from the case "
+    "(own rounding to 1e-6 and lexicographic sort), the objects are only cross-checked",
 ]
 
 UNCOVERED = [
@@ -146,6 +148,17 @@ def classify_geom(e: Exception, ids: list[str]):
     def ix(q):
         return ids.index(str(q))
 
+    try:
+        return _classify_geom(e, ids, ix)
+    except ValueError:
+        # the error names ids that are not the ids of the object being validated
+        return ("other", type(e).__name__, f"reports foreign ids {getattr(e, 'invalid', None)!s:.80}")
+
+
+def _classify_geom(e: Exception, ids: list[str], ix):
+    import pulser.exceptions.sequence as ex
+    from pulser.exceptions.base import PulserValueError
+
     if isinstance(e, ex.DimensionPositionsTooHighError) or isinstance(e, ex.DimensionTooHighError):
         return ("dimension",)
     if isinstance(e, ex.AtomsNumberError):
@@ -194,6 +207,27 @@ def make_register(spec: dict):
         return cls({f"q{i}": p for i, p in enumerate(atoms)}), None
     L = RegisterLayout(lay["traps"])
     return L.define_register(*lay["trap_ids"]), L
+
+
+def rnd6(x) -> float:
+    """the coordinate precision of a layout (1e-6 um), computed with numpy, not read from pulser"""
+    return float(np.round(np.float64(x), 6))
+
+
+def expected_traps(traps) -> list[list[float]]:
+    """what a layout's traps must be, by trap id: the given coordinates rounded to 1e-6 and sorted by
+    x, then y, then z (C19) - recomputed here, not read from the layout object"""
+    r = [[rnd6(v) + 0.0 for v in t] for t in traps]
+    return sorted(r, key=lambda t: tuple(t))
+
+
+def fr(ps) -> list[list[Fraction]]:
+    return [[F(v) for v in p] for p in ps]
+
+
+def same_positions(real, want) -> bool:
+    return len(real) == len(want) and all(
+        len(a) == len(b) and all(x == y for x, y in zip(a, b)) for a, b in zip(real, want))
 
 
 def positions_of(reg) -> list[list[Fraction]]:
@@ -249,6 +283,8 @@ class Fail:
 
 
 class Result:
+    foreign = None
+
     def __init__(self):
         self.fails: list[Fail] = []
         self.diverge: list[tuple[str, str]] = []
@@ -279,11 +315,19 @@ def check_payload(res: Result, clause: str, real, spec: Spec, layout_spec=None, 
 # ---------------------------------------------------------------------------
 # running one case
 # ---------------------------------------------------------------------------
+class InputNotConstructible(Exception):
+    pass
+
+
 def run_case(drv: Driver, case: dict) -> Result:
     res = Result()
     kind = case["kind"]
     if kind in ("vreg", "vlay", "vmap"):
-        _run_validate(drv, case, res)
+        try:
+            _run_validate(drv, case, res)
+        except InputNotConstructible as e:
+            res.foreign = f"well-formed register/layout cannot be constructed: {e}"
+            res.outcome = "foreign"
     elif kind == "mkdev":
         _run_mkdev(drv, case, res)
     elif kind == "maxconn":
@@ -297,7 +341,7 @@ def run_case(drv: Driver, case: dict) -> Result:
 
 def _layout_error(e, L):
     """classify the cause wrapped by validate_register for a layout"""
-    tids = [str(k) for k in L.traps_dict.keys()]
+    tids = [str(k) for k in range(L if isinstance(L, int) else len(L))]
     return classify_geom(e, tids)
 
 
@@ -310,25 +354,46 @@ def _run_validate(drv: Driver, case: dict, res: Result):
     dev = make_device(g)
     kind = case["kind"]
     if kind == "vreg":
-        reg, L = make_register(case)
-        ids = [str(q) for q in reg.qubit_ids]
-        ps = positions_of(reg)
-        rdim = reg.dimensionality
-
-        def call():
-            if case.get("via") == "sequence":
-                pulser.Sequence(reg, dev)
-            else:
-                dev.validate_register(reg)
         try:
-            call()
-            real = ("ok",)
+            reg, L = make_register(case)
         except Exception as e:  # noqa: BLE001
-            real = classify_geom(e, ids)
-            if real is None:
-                real = ("layout",) + _layout_error(e.__cause__, L)
+            raise InputNotConstructible(f"{type(e).__name__}: {str(e)[:80]}") from e
+        if L is None:
+            want_pos = [[float(v) for v in a] for a in case["atoms"]]
+            want_traps = None
+        else:
+            want_traps = expected_traps(case["layout"]["traps"])
+            want_pos = [want_traps[i] for i in case["layout"]["trap_ids"]]
+        ids = [f"q{i}" for i in range(len(want_pos))]
+        ps = fr(want_pos)
+        rdim = len(want_pos[0])
+        # what the objects hold is only cross-checked (owned by C19 / the register classes)
+        if not same_positions(positions_of(reg), ps) or [str(q) for q in reg.qubit_ids] != ids or (
+                L is not None and not same_positions(traps_of(L), fr(want_traps))):
+            res.foreign = "register/layout objects do not hold the given coordinates (C19)"
+
+        def observe(call):
+            try:
+                call()
+                return ("ok",)
+            except Exception as e:  # noqa: BLE001
+                r = classify_geom(e, ids)
+                if r is None:
+                    r = ("layout",) + _layout_error(e.__cause__, len(want_traps))
+                return r
+
+        # two observation points: explicit validation and sequence creation
+        real_val = observe(lambda: dev.validate_register(reg))
+        real_seq = observe(lambda: pulser.Sequence(reg, dev))
+        real = real_seq if case.get("via") == "sequence" else real_val
+        if real_seq != real_val:
+            res.fails.append(Fail("sequence-creation", f"Sequence(register, device) -> {real_seq} but "
+                                                       f"device.validate_register(register) -> {real_val} (device {g}, "
+                                                       f"{len(ps)} atoms{', from a layout' if L is not None else ''})",
+                                  at_creation=real_seq[0], explicit=real_val[0]))
+        ldim = None if L is None else len(want_traps[0])
         line = (f"vreg {dev_tokens(g)} {rdim} {wire_pos(ps)} "
-                + (f"{L.dimensionality} {wire_pos(traps_of(L))}" if L is not None else "- -"))
+                + (f"{ldim} {wire_pos(fr(want_traps))}" if L is not None else "- -"))
         # ---- monitor ----
         spec = Spec(g, ps, True)
         res.ambiguous = spec.amb
@@ -336,42 +401,53 @@ def _run_validate(drv: Driver, case: dict, res: Result):
         fits = dim_ok and spec.ok
         lspec = None
         if L is not None:
-            tr = traps_of(L)
+            tr = fr(want_traps)
             lspec = Spec(g, tr, False)
             res.ambiguous = res.ambiguous or lspec.amb
             nt = len(tr)
             mq, amb = filling_spec(g, len(ps), nt)
             res.ambiguous = res.ambiguous or amb
-            lay_ok = (L.dimensionality <= g["dims"] and nt >= g["min_traps"]
+            lay_ok = (ldim <= g["dims"] and nt >= g["min_traps"]
                       and (g["max_traps"] is None or nt <= g["max_traps"]) and lspec.ok)
             fits = fits and lay_ok and len(ps) <= mq
         if not res.ambiguous:
-            if (real[0] == "ok") != fits:
-                res.fails.append(Fail("accept-iff-fits", f"validate_register -> {real}; fits={fits} "
-                                                         f"(device {g}, {len(ps)} atoms)", error=real[0]))
+            for where, r_ in (("validate_register", real_val), ("Sequence(register, device)", real_seq)):
+                if (r_[0] == "ok") != fits:
+                    res.fails.append(Fail("accept-iff-fits", f"{where} -> {r_}; fits={fits} "
+                                                             f"(device {g}, {len(ps)} atoms)", error=r_[0]))
+                    break
+            if real[0] == "other":
+                res.fails.append(Fail("culprits", f"unexpected error for a register: {real}", error="other"))
             if real[0] == "dimension" and dim_ok:
                 res.fails.append(Fail("culprits", "dimension error for a supported dimensionality", error="dimension"))
             check_payload(res, "register", real, spec, n=len(ps))
             if real[0] == "layout" and lspec is not None:
-                check_payload(res, "layout", real[1:], lspec, n=len(traps_of(L)))
+                check_payload(res, "layout", real[1:], lspec, n=len(want_traps))
             if real[0] == "filling":
-                mq, _ = filling_spec(g, len(ps), len(traps_of(L)))
+                mq, _ = filling_spec(g, len(ps), len(want_traps))
                 if not (real[1] == len(ps) and real[2] == mq and len(ps) > mq):
                     res.fails.append(Fail("culprits", f"filling error {real}, max qubits {mq}", error="filling"))
         res.nontrivial = len(ps) >= 2
     elif kind == "vlay":
-        L = RegisterLayout(case["traps"])
-        tr = traps_of(L)
+        try:
+            L = RegisterLayout(case["traps"])
+        except Exception as e:  # noqa: BLE001
+            raise InputNotConstructible(f"{type(e).__name__}: {str(e)[:80]}") from e
+        want_traps = expected_traps(case["traps"])
+        tr = fr(want_traps)
+        ldim = len(want_traps[0])
+        if not same_positions(traps_of(L), tr):
+            res.foreign = "layout object does not hold the given coordinates (C19)"
         try:
             dev.validate_layout(L)
             real = ("ok",)
         except Exception as e:  # noqa: BLE001
-            real = _layout_error(e, L)
-        line = f"vlay {dev_tokens(g)} {L.dimensionality} {wire_pos(tr)}"
+            real = _layout_error(e, len(want_traps))
+        line = f"vlay {dev_tokens(g)} {ldim} {wire_pos(tr)}"
         lspec = Spec(g, tr, False)
         res.ambiguous = lspec.amb
         nt = len(tr)
-        fits = (L.dimensionality <= g["dims"] and nt >= g["min_traps"]
+        fits = (ldim <= g["dims"] and nt >= g["min_traps"]
                 and (g["max_traps"] is None or nt <= g["max_traps"]) and lspec.ok)
         if not res.ambiguous:
             if (real[0] == "ok") != fits:
@@ -380,22 +456,29 @@ def _run_validate(drv: Driver, case: dict, res: Result):
             check_payload(res, "layout", real, lspec, n=nt)
         res.nontrivial = nt >= 2
     else:  # vmap
-        L = RegisterLayout(case["traps"])
-        tr = traps_of(L)
+        try:
+            L = RegisterLayout(case["traps"])
+        except Exception as e:  # noqa: BLE001
+            raise InputNotConstructible(f"{type(e).__name__}: {str(e)[:80]}") from e
+        want_traps = expected_traps(case["traps"])
+        tr = fr(want_traps)
+        ldim = len(want_traps[0])
+        if not same_positions(traps_of(L), tr):
+            res.foreign = "layout object does not hold the given coordinates (C19)"
         n = case["n"]
         try:
             pulser.Sequence(MappableRegister(L, *[f"q{i}" for i in range(n)]), dev)
             real = ("ok",)
         except Exception as e:  # noqa: BLE001
-            real = _layout_error(e, L)
+            real = _layout_error(e, len(want_traps))
             if real[0] in ("dimension", "trapsLow", "trapsHigh", "distance", "radius"):
                 real = ("layout",) + real
-        line = f"vmap {dev_tokens(g)} {L.dimensionality} {wire_pos(tr)} {n}"
+        line = f"vmap {dev_tokens(g)} {ldim} {wire_pos(tr)} {n}"
         lspec = Spec(g, tr, False)
         nt = len(tr)
         mq, amb = filling_spec(g, n, nt)
         res.ambiguous = lspec.amb or amb
-        fits = (L.dimensionality <= g["dims"] and nt >= g["min_traps"]
+        fits = (ldim <= g["dims"] and nt >= g["min_traps"]
                 and (g["max_traps"] is None or nt <= g["max_traps"]) and lspec.ok and n <= mq)
         if not res.ambiguous and (real[0] == "ok") != fits:
             res.fails.append(Fail("accept-iff-fits", f"Sequence(MappableRegister) -> {real}; fits={fits}",
@@ -407,6 +490,11 @@ def _run_validate(drv: Driver, case: dict, res: Result):
     model = parse_err(drv.ask(line))
     if not res.ambiguous and model != real:
         res.diverge.append((kind, f"real={real} model={model}"))
+    if kind == "vreg" and not res.ambiguous:
+        other = real_val if real is real_seq else real_seq
+        if model != other and other != real:
+            res.diverge.append((kind, f"{'validate_register' if real is real_seq else 'Sequence'} real={other} "
+                                      f"model={model}"))
 
 
 # ---- device construction ---------------------------------------------------
@@ -419,6 +507,16 @@ CHANNEL_KINDS = {
     "ram_loc_virtual": lambda: ("Raman", "Local", (None, 10.0)),
     "mw_glob": lambda: ("Microwave", "Global", (12.0, 10.0)),
 }
+
+
+# facts about each channel kind, from its constructor arguments (not read from the channel objects):
+# Microwave <=> XY basis; virtual <=> some of max_amp / max_abs_detuning (/ max_targets for Local, the DMM's
+# bottom detunings / max_duration) is left undefined
+def channel_facts(kind: str) -> tuple[bool, bool]:
+    if kind in ("dmm", "dmm_virtual"):
+        return (False, kind == "dmm_virtual")
+    cls_name, _addr, (det, amp) = CHANNEL_KINDS[kind]()
+    return (cls_name == "Microwave", det is None or amp is None)
 
 
 def make_channel(kind: str):
@@ -478,10 +576,10 @@ def classify_dev(e: Exception, layouts) -> tuple:
             return (k,)
     if isinstance(e, (ex.TrapsNumberError, ex.DistanceError, ex.RadiusError, ex.DimensionTooHighError)):
         for L in layouts:
-            tids = [str(k) for k in L.traps_dict.keys()]
+            tids = [str(k) for k in range(L)]
             if getattr(e, "layout", L) is L or True:
                 try:
-                    return ("layout",) + classify_geom(e, tids)
+                    return ("layout",) + _classify_geom(e, tids, lambda q, t=tids: t.index(str(q)))
                 except ValueError:
                     continue
     return ("other", type(e).__name__, msg[:100])
@@ -526,13 +624,19 @@ def _run_mkdev(drv: Driver, case: dict, res: Result):
             Device(pre_calibrated_layouts=tuple(layouts), **kw)
         real = ("ok",)
     except Exception as e:  # noqa: BLE001
-        real = classify_dev(e, layouts)
+        real = classify_dev(e, [len(w) for w in [expected_traps(t) for t in p.get("layouts", [])]])
     res.outcome = real[0]
     # facts about the channel objects (oracle)
-    ch_tok = "[" + ",".join(f"{int(c.basis == 'XY')}:{int(c.is_virtual())}" for c in chans) + "]"
-    dm_tok = "[" + ",".join(f"0:{int(d.is_virtual())}" for d in dmms) + "]"
+    ch_facts = [channel_facts(k) for k in p["channels"]]
+    dm_facts = [channel_facts(k) for k in p["dmms"]]
+    ch_tok = "[" + ",".join(f"{int(xy)}:{int(v)}" for xy, v in ch_facts) + "]"
+    dm_tok = "[" + ",".join(f"0:{int(v)}" for _, v in dm_facts) + "]"
+    lay_want = [expected_traps(t) for t in p.get("layouts", [])]
+    if any(not same_positions(traps_of(L), fr(w)) for L, w in zip(layouts, lay_want)):
+        res.foreign = "layout object does not hold the given coordinates (C19)"
+
     ids_tok = "-" if p["channel_ids"] is None else "[" + ",".join(p["channel_ids"]) + "]"
-    lay_tok = "-" if not layouts else "|".join(f"{L.dimensionality}:{wire_pos(traps_of(L))}" for L in layouts)
+    lay_tok = "-" if not lay_want else "|".join(f"{len(w[0])}:{wire_pos(fr(w))}" for w in lay_want)
 
     def o(x, f=str):
         return "-" if x is None else f(x)
@@ -572,19 +676,19 @@ def _run_mkdev(drv: Driver, case: dict, res: Result):
         ids = p["channel_ids"]
         valid = (len(set(ids)) == len(ids) and len(ids) == len(chans)
                  and not (set(ids) & {f"dmm_{i}" for i in range(len(dmms))}))
-    if valid and any(c.basis == "XY" for c in chans):
+    if valid and any(xy for xy, _ in ch_facts):
         valid = isinstance(p["interaction_coeff_xy"], float)
     if valid and not virtual:
-        valid = not any(c.is_virtual() for c in chans + dmms)
+        valid = not any(v for _, v in ch_facts + dm_facts)
         if valid and layouts:
             g = dict(dims=p["dimensions"], min_dist=p["min_atom_distance"], max_atoms=p["max_atom_num"],
                      max_radial=p["max_radial_distance"], min_traps=p["min_layout_traps"],
                      max_traps=p["max_layout_traps"], max_filling=p["max_layout_filling"])
-            for L in layouts:
-                tr = traps_of(L)
+            for w in lay_want:
+                tr = fr(w)
                 ls = Spec(g, tr, False)
                 amb = amb or ls.amb
-                valid = valid and (L.dimensionality <= g["dims"] and len(tr) >= g["min_traps"]
+                valid = valid and (len(w[0]) <= g["dims"] and len(tr) >= g["min_traps"]
                                    and (g["max_traps"] is None or len(tr) <= g["max_traps"]) and ls.ok)
     res.ambiguous = amb
     res.nontrivial = True
@@ -602,6 +706,35 @@ def _run_mkdev(drv: Driver, case: dict, res: Result):
 
 
 # ---- constructor closure (monitor only) ----------------------------------------
+def independent_fit(g: dict, reg) -> tuple[bool, bool, str]:
+    """does the produced register fit the device, by the harness's own exact computation?
+    -> (fits, float-ambiguous, what fails)"""
+    ps = positions_of(reg)
+    spec = Spec(g, ps, True)
+    amb, why = spec.amb, []
+    if len(ps[0]) > g["dims"]:
+        why.append("dimension")
+    if spec.count_bad:
+        why.append("atom number")
+    if spec.pairs:
+        why.append(f"pairs {spec.pairs[:3]} too close")
+    if spec.far:
+        why.append(f"atoms {spec.far[:3]} too far")
+    L = reg.layout
+    if L is not None:
+        tr = traps_of(L)
+        ls = Spec(g, tr, False)
+        mq, a2 = filling_spec(g, len(ps), len(tr))
+        amb = amb or ls.amb or a2
+        if len(tr) < g["min_traps"] or (g["max_traps"] is not None and len(tr) > g["max_traps"]):
+            why.append(f"{len(tr)} traps")
+        if ls.pairs or ls.far:
+            why.append("trap geometry")
+        if len(ps) > mq:
+            why.append(f"filling {len(ps)} > {mq}")
+    return (not why, amb, "; ".join(why))
+
+
 def _run_maxconn(case: dict, res: Result):
     import pulser
 
@@ -613,6 +746,11 @@ def _run_maxconn(case: dict, res: Result):
         res.outcome = "ctor-refused:" + type(e).__name__
         return
     res.nontrivial = case["n"] >= 2
+    fits, amb, why = independent_fit(g, reg)
+    if not fits and not amb:
+        res.fails.append(Fail("constructor-closure",
+                              f"Register.max_connectivity({case['n']}, dev, spacing={case.get('spacing')}) does not "
+                              f"fit that device ({g}): {why}", ctor="max_connectivity", error="does-not-fit"))
     try:
         dev.validate_register(reg)
         res.outcome = "accepted"
@@ -656,6 +794,12 @@ def _run_autolayout(case: dict, res: Result):
     if not same:
         res.fails.append(Fail("constructor-closure", "with_automatic_layout changed the qubits or has no layout",
                               ctor="with_automatic_layout", error="changed"))
+    fits, amb, why = independent_fit(g, r2)
+    if not fits and not amb:
+        res.fails.append(Fail("constructor-closure",
+                              f"register.with_automatic_layout(dev) does not fit that device ({g}, {len(atoms)} "
+                              f"atoms, {r2.layout.number_of_traps} traps): {why}", ctor="with_automatic_layout",
+                              error="does-not-fit"))
     try:
         dev.validate_register(r2)
         res.outcome = "accepted"
@@ -1067,6 +1211,7 @@ def check(tier: str, seed: int) -> int:
     outcomes = collections.Counter()
     sizes = collections.Counter()
     known_hits = collections.Counter()
+    foreign = collections.Counter()
     known_what: dict[str, str] = {}
     violations: list[dict] = []
     unexplained: list[dict] = []
@@ -1076,6 +1221,8 @@ def check(tier: str, seed: int) -> int:
     def handle(case: dict, origin: str):
         nonlocal nontrivial, evaluations, ambiguous
         res = run_case(drv, case)
+        if res.foreign:
+            foreign[res.foreign] += 1
         evaluations += 1
         ambiguous += int(res.ambiguous)
         kinds[case["kind"]] += 1
@@ -1143,7 +1290,7 @@ def check(tier: str, seed: int) -> int:
                  "positions (or a parameter record / constructor call) and no float-ambiguous threshold",
             samples=samples, kind_histogram=dict(kinds), scenario_histogram=dict(scenarios),
             outcome_histogram=dict(outcomes), size_histogram={str(k): v for k, v in sorted(sizes.items())},
-            float_ambiguous=ambiguous, known_findings_hit=dict(known_hits),
+            float_ambiguous=ambiguous, foreign_divergence=dict(foreign), known_findings_hit=dict(known_hits),
             unexplained_divergences=len(unexplained), uncovered_clauses=UNCOVERED,
             repo_fingerprint=common.repo_fingerprint(),
         ),
